@@ -38,7 +38,7 @@ func (h GRAPHQL) Supports(r *http.Request) bool {
 
 func (h GRAPHQL) Do(w http.ResponseWriter, r *http.Request, exec graphql.GraphExecutor) {
 	ctx := r.Context()
-	writeHeaders(w, h.ResponseHeaders)
+	contentType := writeNegotiatedHeaders(w, h.ResponseHeaders, r)
 	params := &graphql.RawParams{}
 	start := graphql.Now()
 	params.Headers = r.Header
@@ -66,7 +66,7 @@ func (h GRAPHQL) Do(w http.ResponseWriter, r *http.Request, exec graphql.GraphEx
 
 	rc, opErr := exec.CreateOperationContext(ctx, params)
 	if opErr != nil {
-		w.WriteHeader(statusFor(opErr))
+		w.WriteHeader(statusForContentType(contentType, opErr))
 		resp := exec.DispatchError(graphql.WithOperationContext(ctx, rc), opErr)
 		writeJson(w, resp)
 		return
